@@ -360,6 +360,28 @@ func H_ClosePositions_Liquidate() {
 	s.check("close-positions(liquidate)", 1)
 }
 
+// close-positions naming the same position more than once (twice in the liquidate list, or in the liquidate and the
+// stop-loss list): whatever the first entry did, the later entry works on the position as it is then
+//
+//vrf:cover done position-gone
+//vrf:bound 1 existing position named twice in one MsgClosePositions by a third party (symbolic: liquidate+liquidate or liquidate+stop-loss); exit amounts havocked
+//vrf:max-paths 4000
+func H_ClosePositions_SamePositionTwice() {
+	s := setup(true)
+	env, ctx := s.env, s.env.Ctx
+	srv := levkeeper.NewMsgServerImpl(*env.Lev)
+	req := &levtypes.PositionRequest{Address: owner.String(), Id: 1}
+	msg := &levtypes.MsgClosePositions{Creator: bot.String(), Liquidate: []*levtypes.PositionRequest{req}, StopLoss: []*levtypes.PositionRequest{req}}
+	if vrf.Bool("twiceInLiquidateList") {
+		msg = &levtypes.MsgClosePositions{Creator: bot.String(), Liquidate: []*levtypes.PositionRequest{req, req}}
+	}
+	if _, err := srv.ClosePositions(ctx, msg); err != nil {
+		return
+	}
+	vrf.Cover("done")
+	s.check("close-positions(same position twice)", 1)
+}
+
 // owner-only close sent by someone else
 //
 //vrf:cover refused
@@ -466,8 +488,8 @@ func H_ClosePositions_Two() {
 
 // open by an owner who already holds a position of the same pool and collateral: consolidated into it
 //
-//vrf:cover open-ok
-//vrf:bound 1 existing position + symbolic remainder; consolidating open with symbolic collateral and leverage in (1, 10]; join amount havocked
+//vrf:cover open-ok top-up
+//vrf:bound 1 existing position (of any health) + symbolic remainder; consolidating open with symbolic collateral and leverage in [1, 10] (1 = top-up without borrowing); join amount havocked
 //vrf:max-paths 3000
 func H_Open_Consolidate() {
 	s := setup(true)
@@ -476,13 +498,19 @@ func H_Open_Consolidate() {
 	vrf.Assume(coll.IsPositive())
 	vrf.Assume(coll.LTE(sdkmath.NewIntWithDecimal(1, 15)))
 	lev := vrf.Dec("leverage")
-	vrf.Assume(lev.GT(sdkmath.LegacyOneDec()))
+	vrf.Assume(lev.GTE(sdkmath.LegacyOneDec())) // leverage 1 = a pure collateral top-up, nothing is borrowed
 	vrf.Assume(lev.LTE(sdkmath.LegacyNewDec(10)))
 	_, err := env.Lev.Open(ctx, &levtypes.MsgOpen{Creator: owner.String(), CollateralAsset: usdc, CollateralAmount: coll, AmmPoolId: 1, Leverage: lev, StopLossPrice: sdkmath.LegacyZeroDec()})
 	if err != nil {
 		return // failed transaction: rolled back by baseapp
 	}
 	vrf.Cover("open-ok")
+	if lev.Equal(sdkmath.LegacyOneDec()) {
+		vrf.Cover("top-up")
+	}
+	// health as the keeper computes it (exit estimate over the debt), recomputed from the stored debt
+	d := env.Stable.GetDebt(ctx, levtypes.GetPositionAddress(1))
+	vrf.Assert(s.est.ToLegacyDec().Quo(d.GetTotalLiablities().ToLegacyDec()).GT(levtypes.DefaultParams().SafetyFactor), "C10 consolidate: a successful consolidating re-open (a pure collateral top-up included) leaves the position's health strictly above the safety factor")
 	vrf.Assert(env.Lev.GetPositionCount(ctx) == 1, "C08 consolidate: no new position id is allocated")
 	vrf.Assert(env.W.BalOf(owner, usdc).Equal(s.wallet.Sub(coll)), "C08 consolidate: the owner pays exactly the collateral")
 	s.check("open-consolidate", 1)
